@@ -44,11 +44,39 @@ func c15ComposeTS(physical time.Time, logical int64) uint64 { return c15Now }
 func c15GetDatabases(e *EtcdOp, ctx context.Context) ([]model.DatabaseInfo, error) {
 	return nil, nil
 }
+// the listings stand in for the etcd reads of internalGetAllCollection / internalGetAllPartition and,
+// like them, leave out every record one of the caller's filters rejects
 func c15GetAllCollection(e *EtcdOp, ctx context.Context, fillField bool, filters []api.CollectionFilter) ([]*pb.CollectionInfo, error) {
-	return c15Colls, nil
+	var out []*pb.CollectionInfo
+	for _, info := range c15Colls {
+		filtered := false
+		for _, f := range filters {
+			if f != nil && f(info) {
+				filtered = true
+				break
+			}
+		}
+		if !filtered {
+			out = append(out, info)
+		}
+	}
+	return out, nil
 }
 func c15GetAllPartition(e *EtcdOp, ctx context.Context, filters []api.PartitionFilter) ([]*pb.PartitionInfo, error) {
-	return c15Parts, nil
+	var out []*pb.PartitionInfo
+	for _, info := range c15Parts {
+		filtered := false
+		for _, f := range filters {
+			if f != nil && f(info) {
+				filtered = true
+				break
+			}
+		}
+		if !filtered {
+			out = append(out, info)
+		}
+	}
+	return out, nil
 }
 
 // c15Target follows the documented contract of TargetClient.GetDatabaseName: a
@@ -106,7 +134,7 @@ func VerifC15_Snapshot() {
 	L, C, P := vParam("L", 3), vParam("C", 2), vParam("P", 1)
 	c15Now = vU64("now")
 	vAssume(vAnd(c15Now >= 2, c15Now < 1<<62))
-	e := &EtcdOp{rootPath: "by-dev", metaSubPath: "meta", etcdClient: &clientv3.Client{KV: &c15KV{}}}
+	e := &EtcdOp{rootPath: "by-dev", metaSubPath: "meta", defaultPartitionName: "_default", etcdClient: &clientv3.Client{KV: &c15KV{}}}
 	// databases: each live or dropped upstream (tombstoned: only known as "_tome")
 	d1 := TomeObject
 	if vBool("db1.live") {
@@ -305,3 +333,7 @@ func c15Lookup(tab map[string]uint64, key string) (uint64, bool) {
 	}
 	return got, ok
 }
+
+// VerifC15_TwoPartitions: one collection, two partition records (a dropped incarnation and a
+// namesake in any state, created / creating included)
+func VerifC15_TwoPartitions() { VerifC15_Snapshot() }
